@@ -2,6 +2,7 @@ import OtelVerif.Common.Line
 import OtelVerif.Model.C19
 import OtelVerif.Drivers.C19Exp
 import OtelVerif.Drivers.C19Obs
+import OtelVerif.Drivers.C19XExp
 /-! driver for C19: models `c19-recv` (receiverhelper.ObsReport), `c19-scrape` (scraperhelper controllers),
 `c19-proc` (processorhelper); the exporter handler is added to the list in `main`.
 
@@ -368,5 +369,6 @@ end OtelVerif.Drivers.C19
 def main : IO UInt32 :=
   runMulti (OtelVerif.Drivers.C19.handlers ++ [
     ("c19-exp", run OtelVerif.Drivers.C19Exp.expHandler),
-    ("c19-obs", run OtelVerif.Drivers.C19Obs.handler)
+    ("c19-obs", run OtelVerif.Drivers.C19Obs.handler),
+    ("c19-xexp", run OtelVerif.Drivers.C19XExp.handler)
   ])
